@@ -320,6 +320,23 @@ def huge_units():
     return units
 
 
+def many_vertex_units():
+    """single elements with 63..1033 vertices (staircases, see C14) against boxes around their steps, corners and far ends"""
+    from .c14 import long_family
+    boxes = []
+    for i in (0, 15, 31, 32, 33, 63, 64, 65, 127, 128, 256, 514):
+        x, y = 2 * i + 2, 3 * i
+        boxes += [(x - 1, y - 1, x + 1, y + 1), (x + 1, y - 2, x + 2, y - 1), (x - 2, y + 1, x - 1, y + 2), (x - 3, y - 3, x + 4, y + 5),
+                  (x, y, x + 1, y + 3), (-1, y + 1, 1, y + 2)]
+    boxes += [(-5, -5, 2000, 2000), (5000, 0, 5003, 4), (-9, -9, -1, -1), (1, 1, 2, 2)]
+    out = []
+    for kind in ("line", "ring", "multiline", "polygon", "multipolygon"):
+        fam = long_family(kind)
+        for c in range(0, len(fam), 8):
+            out.append((kind, fam[c:c + 8] + [None], boxes, "valid"))
+    return out
+
+
 def plan(ctx):
     """list of (kind, elems, boxes, scalar_stride)"""
     T = ctx.thorough
@@ -371,11 +388,15 @@ def run(ctx):
     hu = huge_units()
     if not ctx.thorough:
         hu = hu[ctx.seed % 2::2] if len(hu) > 8 else hu
+    hu = hu + many_vertex_units()
     nu = len(units)
 
     def work(col, i):
         if i >= nu:
-            kind, el, boxes = hu[i - nu]
+            kind, el, boxes = hu[i - nu][:3]
+            if len(hu[i - nu]) > 3:
+                check_chunk(col, kind, el, boxes, ("float64", "int32", "int16"), ctx.seed, 4, chunk_id=i, eps=False, T_fixed=(1, 0, 0))
+                return
             if kind == "multipolygon":
                 # parts of a multipolygon must not overlap: keep pairs whose triangles are disjoint by construction? they are
                 # arbitrary here, so only the segment / vertex behaviour is comparable -> use them as separate polygons instead
